@@ -233,6 +233,31 @@ fn main() {
         let kind = sc.get("kind").and_then(|k| k.as_str()).unwrap_or("template").to_owned();
         let res = match kind.as_str() {
             "template" => run_template(&sc),
+            "policies" => {
+                // the same scenario under the three partial-compilation policies, rendered twice each: all must agree
+                let mut results = Vec::new();
+                for pol in ["eager", "lazy", "ondemand"] {
+                    let mut sc2 = sc.clone();
+                    sc2["policy"] = json!(pol);
+                    sc2["repeat"] = json!(2);
+                    let r = run_template(&sc2);
+                    let summary = |x: &J| json!({"outcome": x.get("outcome"), "output": x.get("output"), "stage": x.get("stage")});
+                    let runs: Vec<J> = match r.get("runs").and_then(|x| x.as_array()) { Some(a) => a.iter().map(summary).collect(), None => vec![summary(&r)] };
+                    results.push((pol, runs, r));
+                }
+                let base = results[0].1.clone();
+                let mut bad = None;
+                for (pol, runs, full) in &results {
+                    if full.get("stage").and_then(|s| s.as_str()) == Some("build") { bad = Some(format!("{}: building the parser failed: {}", pol, full)); break; }
+                    if runs.iter().any(|x| x.get("outcome").and_then(|o| o.as_str()) == Some("panic")) { bad = Some(format!("{}: panic: {}", pol, full)); break; }
+                    if runs.len() == 2 && runs[0] != runs[1] { bad = Some(format!("{}: the second render differs from the first: {:?}", pol, runs)); break; }
+                    if runs.first() != base.first() { bad = Some(format!("{} answers {:?} but eager answers {:?}", pol, runs.first(), base.first())); break; }
+                }
+                match bad {
+                    Some(b) => json!({"outcome": "violation", "what": b}),
+                    None => json!({"outcome": "ok", "runs": base}),
+                }
+            }
             "sinkfault" => match catch_unwind(AssertUnwindSafe(|| run_sinkfault(&sc))) {
                 Ok(v) => v,
                 Err(p) => json!({"outcome": "violation", "what": "panic", "panic": panic_msg(p)}),
